@@ -287,6 +287,6 @@ func init() {
 		Run:            c01Run,
 		Replay:         c01Replay,
 		QuickBudget:    150 * time.Second,
-		ThoroughBudget: 25 * time.Minute,
+		ThoroughBudget: 15 * time.Minute,
 	})
 }
